@@ -144,24 +144,27 @@ func (d Doc) YAML() []byte {
 	if err != nil {
 		panic(err)
 	}
-	return restyleYAML(b)
+	return restyleYAML(b, list)
 }
 
 // restyleYAML re-writes a document in another YAML style that denotes the same data, chosen by a hash of the document:
 // flow mappings, CRLF line ends with a document marker and comments, keys in reverse order with integer durations as bare
 // numbers, anchors and aliases for repeated duration lists. Half of the documents keep the library's default style.
-func restyleYAML(b []byte) []byte {
+func restyleYAML(b []byte, data any) []byte {
 	h := fnv.New32a()
 	h.Write(b)
 	sel := mix32(h.Sum32()) % 8
 	if sel < 4 {
 		return b
 	}
-	var doc yaml.Node
-	if yaml.Unmarshal(b, &doc) != nil || len(doc.Content) != 1 || doc.Content[0].Kind != yaml.SequenceNode {
+	// the node tree is built from the data itself, not by reading the default rendering back (the library loses a text
+	// made of line breaks only on that round trip)
+	var root yaml.Node
+	if root.Encode(data) != nil || root.Kind != yaml.SequenceNode {
 		return b
 	}
-	seq := doc.Content[0]
+	doc := yaml.Node{Kind: yaml.DocumentNode, Content: []*yaml.Node{&root}}
+	seq := &root
 	switch sel {
 	case 4:
 		for _, it := range seq.Content {
@@ -218,6 +221,18 @@ func restyleYAML(b []byte) []byte {
 			}
 		}
 	}
+	// texts with line breaks are written double-quoted (the library's block scalars do not survive this round trip for
+	// texts made of line breaks only, and CRLF line ends must not reach into a text)
+	var quote func(n *yaml.Node)
+	quote = func(n *yaml.Node) {
+		if n.Kind == yaml.ScalarNode && strings.ContainsAny(n.Value, "\n\r") {
+			n.Style = yaml.DoubleQuotedStyle
+		}
+		for _, c := range n.Content {
+			quote(c)
+		}
+	}
+	quote(&doc)
 	var buf bytes.Buffer
 	enc := yaml.NewEncoder(&buf)
 	enc.SetIndent(2 + int(sel)%3)
@@ -410,4 +425,4 @@ func randomFlags(rng *rand.Rand, p float64) Flags {
 }
 
 var sampleTexts = []string{"hello", "a b", "x", "été", "日本語", "α→β", "emoji 🎵 ok", "q\"uote", "back\\slash", "tab\there", "colon: yes", "- dash", "# hash",
-	"'single'", "{brace}", "[1,2]", "long " + "0123456789abcdefghijklmnopqrstuvwxyz0123456789abcdefghijklmnopqrstuvwxyz0123456789abcdefghijklmnopqrstuvwxyz0123456789abcdefghijklmnopqrstuvwxyz", "null", "true", "1", " lead", "trail ", "ñ", "𝄞 clef", " ", "\u3000", "  \t ", "大好き", "Život"}
+	"'single'", "{brace}", "[1,2]", "long " + "0123456789abcdefghijklmnopqrstuvwxyz0123456789abcdefghijklmnopqrstuvwxyz0123456789abcdefghijklmnopqrstuvwxyz0123456789abcdefghijklmnopqrstuvwxyz", "null", "true", "1", " lead", "trail ", "ñ", "𝄞 clef", " ", "\u3000", "  \t ", "大好き", "Život", "the end\n\n\n", "first\r\nsecond", ";-) intro", "line1\nline2\n", "x\r"}
